@@ -242,6 +242,25 @@ CLAIMED["C15"] = (
     "Lean 4 proof (parser = grammar both directions; compile = denotation; spelling invariance) with translated grammar and exhaustive short-string correspondence",
     "DESIGN.md §5 C15, §10.2")
 
+CLAIMED["C20"] = (
+    "Lean 4 theorems over a model of sync_trait (the __sync_trait__ tables as one insertion-ordered edge list, the lock tables, "
+    "registration of the scalar and _items handlers as state, _sync_trait_modified and _sync_trait_items_modified after fixes "
+    "7706111 and d1bf550, the weakref callback) in a world of N objects whose lists mutate through C05's TraitList.step behind "
+    "C04's guard so that events are exactly C05's: the lock tables are empty after every command (induction over histories), the "
+    "nested propagation terminates (budget independence; depth 2 for a pair or hub), scalar convergence, list convergence after every "
+    "mutator incl. extended slices (the partner's operation is C05's replay of the event) under the decidable link-graph condition "
+    "NoRevisit (discharged for pairs and hubs), at most one change and one notification per trait per assignment, one-way links, "
+    "removal, partner death, only the object's own validator or list operation ever raises, and C20_converge_history: after every "
+    "history of assignments, mutators, mutual link/unlink and object deaths on one mutual link both sides are equal while it is "
+    "present. Two full-strength statements are kept as defs with proved refutations (F60 three lists linked in a cycle diverge; "
+    "F61 the items handler is registered only with the first partner). Correspondence: two- and three-sided histories incl. "
+    "gc.collect() at any point, model vs real code incl. lock tables and handler counts.",
+    "Trusted: Lean kernel, standard axioms; Py.List/TraitList/guardLen shared with C05/C04; old != new is structural inequality of "
+    "the harness values; the depth budget stands for CPython's recursion limit; garbage collection of a partner is real in the "
+    "harness (gc.collect) and a `kill` command in the model — that a dead partner is really collected is tested, not proved; harness.",
+    "Lean 4 proof (lock invariant and convergence by induction over histories, on top of C05's replay law) with model-code correspondence",
+    "DESIGN.md §5 C20, §10.2")
+
 NOT_YET = "check not built yet in this round (planned in DESIGN.md §9); not claimed until it exists"
 
 
